@@ -11,8 +11,11 @@ META = dict(
           "[lex.icon] table assigns and the written value [buildInt_spec], and rejects literals no type can hold; process_unicode's byte construction is "
           "RFC 3629 for every code point < 0x110000 and rejects the rest [utf8_is_standard, utf8_roundtrip]; the simple-escape table is C++'s; the escape "
           "decoder's strictness flags hold; every keyword spelling is recognised and keyword hashes are pairwise distinct. The Char_Parser state machine "
-          "and the spec decoder cppUnescape are executable models compared with the real parser on generated literals (every escape form, truncated and "
-          "out-of-range escapes); the equivalence machine = spec for all strings is correspondence-level, not yet a theorem. Float literals: type exact, value "
+          "with the configuration regenerated from the source [escape_machine_config] computes EXACTLY the declarative C++-style decoding cppUnescape, for every "
+          "literal body the lexer can deliver (any bytes not ending right after an unescaped backslash): same bytes when defined, an error whenever the body is "
+          "malformed (unknown escape, \\x without digits, short \\u / \\U, surrogates, code points >= 0x110000) [escape_machine_is_spec, by induction over the body "
+          "with run lemmas for the octal / hex / unicode sub-machines: Lemmas/LitEscape.lean]; both are also compared with the real parser on generated literals "
+          "(every escape form, truncated and out-of-range escapes). Float literals: type exact, value "
           "within 8 ulp of the correctly rounded value (correspondence only). 'Keywords by exact spelling only' is false for any 32-bit hash: colliding "
           "identifiers are found at check time and reported as the known finding KEYWORD_BY_HASH_ONLY."),
     note=("Trusted: Lean kernel, extract/e_lit.py, Spec/Lit.lean (our reading of [lex.icon], [lex.ccon], RFC 3629), harness/literal.cpp, python float() as the "
